@@ -52,7 +52,22 @@ MUT = {"append", "extend", "insert", "pop", "remove", "clear", "sort", "reverse"
 def _nm(repo: Repo, ci, name: str):
     """The method with private helpers inlined and single-use locals of conditions resolved."""
     from .. import inline
-    return inline.resolve_flags(inline.normalize(repo, ci, repo.own_method(ci, name)))
+    return inline.resolve_flags(inline.normalize(repo, ci, repo.own_method(ci, name, raw=True), aliases=True))
+
+
+def _value_tests(fn: ast.FunctionDef, known_roots: Set[str]) -> List[str]:
+    """Branch conditions that test a computed local (`position is None`, `slot < 0`): decisions taken on values, which the
+    path rules of this module (conditions over the parameters and the project's lists) cannot follow."""
+    params = {a.arg for a in fn.args.args + fn.args.kwonlyargs}
+    out = []
+    for n in ast.walk(fn):
+        if isinstance(n, (ast.If, ast.While, ast.IfExp)):
+            for x in ast.walk(n.test):
+                if isinstance(x, ast.Name) and isinstance(x.ctx, ast.Load) and x.id not in params and x.id not in known_roots \
+                        and x.id not in ("self", "None", "True", "False", "isinstance", "len", "Module", "Output", "callable", "type"):
+                    out.append(norm(n.test))
+                    break
+    return out
 
 
 def run(repo: Repo, rep, tier: str):
@@ -248,6 +263,14 @@ def attach_module_rules(repo: Repo, rep, P: str):
     if not params:
         raise AnchorMissing("attach_module parameters")
     mp = params[0]
+    vt = _value_tests(fn, set())
+    if vt:
+        rep.inconclusive(f"{P}.R2", construct, "; ".join(sorted(set(vt)))[:200],
+                         "attach_module decides on computed values; the path rules follow conditions over the parameters and the module list only",
+                         f"{rel}:{fn.lineno}")
+        none_slot_first(repo, rep, P, "R2")
+        module_index_rule(repo, rep, P, "R2")
+        return
     g = CFG(fn)
     paths = g.paths(g.entry, [g.exit, g.raise_exit], max_visits=1, limit=5000)
     if paths is None:
